@@ -1,12 +1,12 @@
 #!/verif/.venv/bin/python
-# Replay of a counterexample against the real code in /repo/src (exit 1 = violation reproduced).
+# Replay of a counterexample against the real code in /tmp/wt_couplings/src (exit 1 = violation reproduced).
 import os, sys
 os.environ.setdefault("NUMBA_DISABLE_JIT", "1")
-sys.path.insert(0, '/repo' + "/src"); sys.path.insert(0, '/verif')
+sys.path.insert(0, '/tmp/wt_couplings' + "/src"); sys.path.insert(0, '/verif')
 from fractions import Fraction
 import harness.cplkit as H
 try:
-    r = H.replay_multi({'nf': Fraction(3, 1)}, **{'mod': 'harness.C16', 'fn': 'replay_table', 'extra': [{'nf': Fraction(3, 1)}, {'nf': Fraction(4, 1)}, {'nf': Fraction(5, 1)}, {'a': Fraction(27, 1000), 'alpha': Fraction(13, 1000), 'aem': Fraction(29, 50000), 'nf': Fraction(5, 1), 'Lc': Fraction(-1033, 1000), 'Lb': Fraction(-499, 500), 'Lt': Fraction(703, 1000), 'Lq': Fraction(-93, 100)}, {'a': Fraction(17, 1000), 'alpha': Fraction(27, 1000), 'aem': Fraction(9, 12500), 'nf': Fraction(3, 1), 'Lc': Fraction(123, 125), 'Lb': Fraction(-997, 1000), 'Lt': Fraction(811, 1000), 'Lq': Fraction(-1117, 1000)}, {'a': Fraction(13, 500), 'alpha': Fraction(1, 125), 'aem': Fraction(37, 50000), 'nf': Fraction(5, 1), 'Lc': Fraction(343, 250), 'Lb': Fraction(3, 1000), 'Lt': Fraction(113, 1000), 'Lq': Fraction(-1279, 1000)}, {'a': Fraction(27, 1000), 'alpha': Fraction(9, 1000), 'aem': Fraction(3, 4000), 'nf': Fraction(5, 1), 'Lc': Fraction(-67, 200), 'Lb': Fraction(-197, 500), 'Lt': Fraction(209, 200), 'Lq': Fraction(-17, 25)}], 'kw': {'scheme': 'MSBAR'}})
+    r = H.replay_multi({'nf': Fraction(3, 1)}, **{'mod': 'harness.C16', 'fn': 'replay_table', 'extra': [{'nf': Fraction(3, 1)}, {'nf': Fraction(4, 1)}, {'nf': Fraction(5, 1)}, {'a': Fraction(11, 500), 'alpha': Fraction(9, 1000), 'aem': Fraction(33, 50000), 'nf': Fraction(5, 1), 'Lc': Fraction(67, 200), 'Lb': Fraction(-703, 1000), 'Lt': Fraction(-843, 1000), 'Lq': Fraction(37, 1000)}, {'a': Fraction(2, 125), 'alpha': Fraction(2, 125), 'aem': Fraction(13, 20000), 'nf': Fraction(4, 1), 'Lc': Fraction(427, 500), 'Lb': Fraction(-101, 200), 'Lt': Fraction(1169, 1000), 'Lq': Fraction(29, 200)}, {'a': Fraction(2, 125), 'alpha': Fraction(1, 125), 'aem': Fraction(21, 50000), 'nf': Fraction(3, 1), 'Lc': Fraction(1199, 1000), 'Lb': Fraction(-67, 50), 'Lt': Fraction(657, 500), 'Lq': Fraction(-853, 1000)}, {'a': Fraction(7, 250), 'alpha': Fraction(11, 500), 'aem': Fraction(11, 20000), 'nf': Fraction(3, 1), 'Lc': Fraction(153, 500), 'Lb': Fraction(-48, 125), 'Lt': Fraction(17, 50), 'Lq': Fraction(-499, 1000)}], 'kw': {'scheme': 'MSBAR', 'which': 'up', 'n': 3, 'l': 2}})
 except Exception:
     import traceback; traceback.print_exc(); sys.exit(2)
 print(r)
